@@ -5,7 +5,8 @@
 From PyGql Require Import Valid.ValidOverlap Spec.ValidSpec Proofs.ValidCloseProofs
      Proofs.ValidGraphProofs Proofs.ValidVarProofs Proofs.ValidPermProofs
      Proofs.ValidUnusedProofs Proofs.ValidSelPermProofs Proofs.ValidUniqueProofs
-     Spec.ValidValueSpec Proofs.ValidValueProofs.
+     Spec.ValidValueSpec Proofs.ValidValueProofs Spec.ValidLocalSpec Proofs.ValidLocalProofs
+     Proofs.ValidVerdictProofs Proofs.ValidPermAllProofs Proofs.ValidSelPermAllProofs.
 From Coq Require Import Permutation.
 
 (* The closure iteration (repaired _flatten_fragments, and the reachable set
@@ -83,6 +84,102 @@ Theorem C06_rule_equiv_LoneAnonymousOperation : forall d,
   r03_lone_anonymous d = [] <-> spec_lone_anonymous d.
 Proof. exact r03_equiv. Qed.
 Print Assumptions C06_rule_equiv_LoneAnonymousOperation.
+
+(* ---- the local rules, each against its declarative form over the nodes met
+        by static descent (Spec/ValidLocalSpec.v) ---- *)
+Theorem C06_rule_equiv_ExecutableDefinitions : forall d, r01_executable d = [] <-> spec_executable_definitions d.
+Proof. exact r01_equiv. Qed.
+Print Assumptions C06_rule_equiv_ExecutableDefinitions.
+
+Theorem C06_rule_equiv_SingleFieldSubscriptions : forall d, r04_single_field_subscription d = [] <-> spec_single_field_subscriptions d.
+Proof. exact r04_equiv. Qed.
+Print Assumptions C06_rule_equiv_SingleFieldSubscriptions.
+
+Theorem C06_rule_equiv_KnownTypeNames : forall s d, r05_known_type_names s d = [] <-> spec_known_type_names s d.
+Proof. exact r05_equiv. Qed.
+Print Assumptions C06_rule_equiv_KnownTypeNames.
+
+Theorem C06_rule_equiv_FragmentsOnCompositeTypes : forall s d, r06_fragments_on_composite s d = [] <-> spec_fragments_on_composite s d.
+Proof. exact r06_equiv. Qed.
+Print Assumptions C06_rule_equiv_FragmentsOnCompositeTypes.
+
+Theorem C06_rule_equiv_VariablesAreInputTypes : forall s d, r07_variables_are_input_types s d = [] <-> spec_variables_are_input_types s d.
+Proof. exact r07_equiv. Qed.
+Print Assumptions C06_rule_equiv_VariablesAreInputTypes.
+
+Theorem C06_rule_equiv_ScalarLeafs : forall s d, r08_scalar_leafs s d = [] <-> spec_scalar_leafs s d.
+Proof. exact r08_equiv. Qed.
+Print Assumptions C06_rule_equiv_ScalarLeafs.
+
+Theorem C06_rule_equiv_FieldsOnCorrectType : forall s d, r09_fields_on_correct_type s d = [] <-> spec_fields_on_correct_type s d.
+Proof. exact r09_equiv. Qed.
+Print Assumptions C06_rule_equiv_FieldsOnCorrectType.
+
+Theorem C06_rule_equiv_PossibleFragmentSpreads : forall s d, r13_possible_spreads s d = [] <-> spec_possible_spreads s d (frag_type_of s (doc_defs d)).
+Proof. exact r13_equiv. Qed.
+Print Assumptions C06_rule_equiv_PossibleFragmentSpreads.
+
+Theorem C06_rule_equiv_UniqueVariableNames : forall d, r15_unique_variable_names d = [] <-> spec_unique_variable_names d.
+Proof. exact r15_equiv. Qed.
+Print Assumptions C06_rule_equiv_UniqueVariableNames.
+
+Theorem C06_rule_equiv_KnownDirectives : forall s d, r18_known_directives s d = [] <-> spec_known_directives s d.
+Proof. exact r18_equiv. Qed.
+Print Assumptions C06_rule_equiv_KnownDirectives.
+
+Theorem C06_rule_equiv_UniqueDirectivesPerLocation : forall s d, r19_unique_directives s d = [] <-> spec_unique_directives s d.
+Proof. exact r19_equiv. Qed.
+Print Assumptions C06_rule_equiv_UniqueDirectivesPerLocation.
+
+Theorem C06_rule_equiv_KnownArgumentNames : forall s d, r20_known_argument_names s d = [] <-> spec_known_argument_names s d.
+Proof. exact r20_equiv. Qed.
+Print Assumptions C06_rule_equiv_KnownArgumentNames.
+
+Theorem C06_rule_equiv_UniqueArgumentNames : forall s d, r21_unique_argument_names s d = [] <-> spec_unique_argument_names s d.
+Proof. exact r21_equiv. Qed.
+Print Assumptions C06_rule_equiv_UniqueArgumentNames.
+
+Theorem C06_rule_equiv_ProvidedRequiredArguments : forall s d, r23_provided_required_arguments s d = [] <-> spec_provided_required_arguments s d.
+Proof. exact r23_equiv. Qed.
+Print Assumptions C06_rule_equiv_ProvidedRequiredArguments.
+
+Theorem C06_rule_equiv_UniqueInputFieldNames : forall s d, r26_unique_input_field_names s d = [] <-> spec_unique_input_field_names s d.
+Proof. exact r26_equiv. Qed.
+Print Assumptions C06_rule_equiv_UniqueInputFieldNames.
+
+(* UniqueOperationName keys anonymous operations by their kind; jointly with
+   LoneAnonymousOperation it is silent exactly when the operation names
+   (anonymous = "") are pairwise distinct. *)
+Theorem C06_rule_equiv_UniqueOperationName_joint : forall d,
+  r03_lone_anonymous d = [] -> (r02_unique_op_names d = [] <-> NoDup (op_key_list d)).
+Proof. exact r02_joint. Qed.
+Print Assumptions C06_rule_equiv_UniqueOperationName_joint.
+
+(* The verdict: the 23 rules with a proved specification form (all but
+   ValuesOfCorrectType -- proved per position above --, VariablesInAllowedPosition
+   and OverlappingFieldsCanBeMerged) are all silent exactly when the document
+   satisfies the conjunction [valid_spec] of their declarative forms. No
+   hypothesis: the uniqueness conditions are members of the conjunction. *)
+Theorem C06_verdict_partial : forall fuel s d,
+  validate_rules fuel s d rules_with_spec = Ok [] <-> valid_spec s d.
+Proof. exact verdict. Qed.
+Print Assumptions C06_verdict_partial.
+
+(* ... and that verdict is invariant under every permutation of the
+   definitions (proved on [valid_spec], transported by the verdict theorem). *)
+Theorem C06_perm_definitions : forall fuel s d d',
+  Permutation (doc_defs d) (doc_defs d') ->
+  (validate_rules fuel s d rules_with_spec = Ok [] <-> validate_rules fuel s d' rules_with_spec = Ok []).
+Proof. exact perm_definitions_all. Qed.
+Print Assumptions C06_perm_definitions.
+
+(* ... and under reordering the selections of every selection set and the
+   arguments of every field and directive, at every depth. *)
+Theorem C06_perm_selections_arguments : forall fuel s d d',
+  doc_perm d d' ->
+  (validate_rules fuel s d rules_with_spec = Ok [] <-> validate_rules fuel s d' rules_with_spec = Ok []).
+Proof. exact perm_selections_arguments_all. Qed.
+Print Assumptions C06_perm_selections_arguments.
 
 (* Full statement: the whole verdict is invariant under permutation of the
    definitions. *)
